@@ -97,10 +97,21 @@ def r5(ctx, cfg):
     f = ctx.need_fn(R, key)
     if f is not None:
         cs = q.calls(f, ("wasm::Wasm", "store_code"))
-        ok = len(cs) == 1
-        if ok:
+        fw = q.calls(f, "app::App::store_code_with_creator")
+        ok = len(cs) + len(fw) == 1
+        if ok and cs:
             a = P.call_args(f, cs[0][1], cs[0][0])
             ok = _param_names(a[1]) == set() and contains(a[1], lambda x: x[0] == "const" and x[2] == "creator") and is_param(a[2], "code")
+        elif ok:
+            # forwarded through the sibling entry point, which hands (creator, code) on unchanged
+            a = P.call_args(f, fw[0][1], fw[0][0])
+            ok = _param_names(a[1]) == set() and contains(a[1], lambda x: x[0] == "const" and x[2] == "creator") and is_param(a[2], "code")
+            g = F.fn("app::App::store_code_with_creator")
+            gs = q.calls(g, ("wasm::Wasm", "store_code")) if g is not None else []
+            ok = ok and len(gs) == 1
+            if ok:
+                ga = P.call_args(g, gs[0][1], gs[0][0])
+                ok = is_param(ga[1], "creator") and is_param(ga[2], "code")
         ctx.ob(R, key, "default-creator-is-a-constant", ok, "App::store_code creator is not the constant `creator` address", fn=f, sample='addr_make("creator")')
 
 
